@@ -33,6 +33,8 @@ SCEN = {
 TIDS = {"A": 100, "B": 102, "C": 100, "D": 103}
 # metadata larger than a stdio buffer (written in several chunks), relocated too
 SCEN["h9"] = "A:pinit A:init A:abig A:x A:ev0 A:e A:f A:free A:pfini"
+# the program changes its working directory; a second thread starts tracing afterwards
+SCEN["h10"] = "A:pinit A:init A:x A:ev0 A:cd B:init B:x B:ev4 B:e B:f B:free A:e A:f A:free A:pfini"
 # three threads of one process, interleaved
 SCEN["h8"] = "A:pinit A:init B:init D:init A:x B:x D:x D:j3000 A:ev8 B:j100 D:j2000 A:f B:e D:e A:e D:f B:f A:f D:free A:free B:free A:pfini"
 
@@ -115,7 +117,7 @@ class Runner:
         self.emu = build.tool("plain", "ovniemu")
         self.base = scratch.sub("runs")
 
-    def run(self, tag, scen, mode, inject=None, shortwrite=None):
+    def run(self, tag, scen, mode, inject=None, shortwrite=None, diskfull=None):
         """mode: ('direct',None) or ('tmpdir', 'json-first'|'obs-first').  Returns dict."""
         d = os.path.join(self.base, tag)
         shutil.rmtree(d, ignore_errors=True)
@@ -125,14 +127,25 @@ class Runner:
         env.pop("OVNI_TMPDIR", None)
         env.pop("VERIF_READDIR", None)
         env.pop("VERIF_SHORTWRITE", None)
+        env.pop("VERIF_DISKFULL", None)
         if shortwrite:
             env["VERIF_SHORTWRITE"] = shortwrite
+        if diskfull:
+            env["VERIF_DISKFULL"] = diskfull
+        cwd = None
         if mode[0] == "tmpdir":
             env["OVNI_TMPDIR"] = os.path.join(d, "tmp")
             env["VERIF_READDIR"] = mode[1]
         elif mode[0] == "same":
             # OVNI_TMPDIR names the trace directory itself (under another spelling)
             env["OVNI_TMPDIR"] = os.path.join(d, ".", "final")
+        elif mode[0] == "rel":
+            # the trace directory is given relative to the working directory (the default "ovni" is)
+            env["OVNI_TRACEDIR"] = "final"
+            cwd = d
+            if mode[1] == "tmp":
+                env["OVNI_TMPDIR"] = "tmp"
+                env["VERIF_READDIR"] = "obs-first"
         log = os.path.join(d, "log")
         # harness/killat.c: ptrace tracer; inject is None, "kill:N" or "err:N:ERRNO" (N = global index in the runtime phase)
         cmd = [self.killat, log, inject or "-"]
@@ -147,9 +160,9 @@ class Runner:
             if p0.returncode != 0:
                 raise InfraError("earlier run failed: %s" % p0.stderr.decode("latin1")[-300:])
         cmd += [self.exe] + [o for o in SCEN[scen.split(":")[-1]].split() if o != "|"]
-        r = subprocess.run(cmd, env=env, stdout=subprocess.PIPE, stderr=subprocess.PIPE, timeout=60)
-        return {"dir": d, "rc": r.returncode, "stderr": r.stderr.decode("latin1"), "log": parse_log(log), "final": env["OVNI_TRACEDIR"],
-                "tmp": env.get("OVNI_TMPDIR")}
+        r = subprocess.run(cmd, env=env, stdout=subprocess.PIPE, stderr=subprocess.PIPE, timeout=60, cwd=cwd)
+        return {"dir": d, "rc": r.returncode, "stderr": r.stderr.decode("latin1"), "log": parse_log(log), "final": os.path.join(d, "final"),
+                "tmp": (os.path.join(d, "tmp") if env.get("OVNI_TMPDIR") == "tmp" else env.get("OVNI_TMPDIR"))}
 
     def emulate(self, final):
         if not os.path.isdir(final):
@@ -374,7 +387,7 @@ def run_c09(prop, tier):
         scratch.cleanup()
 
 
-FAULTS = {"mkdir": ["EACCES", "ENOSPC"], "openat": ["EACCES", "ENOSPC", "EMFILE"], "write": ["ENOSPC", "EIO", "EINTR"], "read": ["EIO"],
+FAULTS = {"getcwd": ["ERANGE", "ENOENT"], "chdir": [], "mkdir": ["EACCES", "ENOSPC"], "openat": ["EACCES", "ENOSPC", "EMFILE"], "write": ["ENOSPC", "EIO", "EINTR"], "read": ["EIO"],
           "close": ["EIO"], "unlink": ["EACCES"], "rmdir": ["EACCES"], "newfstatat": ["EACCES"], "getdents64": ["EIO"], "fdatasync": ["EIO"],
           "writev": ["ENOSPC", "EIO", "EINTR"], "pwrite64": ["ENOSPC", "EIO"], "pwritev": ["ENOSPC", "EIO"], "pwritev2": ["ENOSPC", "EIO"],
           "rename": ["EACCES", "EXDEV"], "renameat": ["EACCES", "EXDEV"], "renameat2": ["EACCES", "EXDEV"], "unlinkat": ["EACCES"], "mkdirat": ["EACCES", "ENOSPC"],
@@ -391,7 +404,7 @@ def run_c10(prop, tier):
     try:
         build = Build()
         runner = Runner(build, scratch)
-        scens = ["h1", "h2"] if tier == "quick" else ["h1", "h2", "h3", "h5", "h4a", "h8", "h9", "r:h1", "r:h3", "q:h1"]
+        scens = ["h1", "h2"] if tier == "quick" else ["h1", "h2", "h3", "h5", "h4a", "h8", "h9", "h10", "r:h1", "r:h3", "q:h1"]
         if tier != "quick":
             gen = interleavings(1 if tier == "thorough" else 2)
             SCEN.update(gen)
@@ -402,7 +415,8 @@ def run_c10(prop, tier):
         jobs = []
         refs = {}
         for sc in scens:
-            for mode in modes:
+            # the scenario that changes its working directory runs with relative trace directories (as the default "ovni" is)
+            for mode in (modes if sc != "h10" else [("rel", None), ("rel", "tmp")]):
                 tag = "%s-%s-%s" % (sc, mode[0], mode[1])
                 r, full, seq = plan(runner, sc, mode, tag)
                 refs[(sc, mode)] = full
@@ -411,6 +425,8 @@ def run_c10(prop, tier):
                         continue
                     if s["sc"] == "write" and s["args"].startswith("2,"):
                         continue
+                    if '"elsewhere"' in s["args"]:
+                        continue        # the program's own mkdir / chdir, not the runtime's
                     for e in FAULTS.get(s["sc"], []):
                         if tier == "quick" and e != FAULTS[s["sc"]][0] and s["sc"] != "write":
                             continue
@@ -428,6 +444,9 @@ def run_c10(prop, tier):
                             nw += 1
                             for how in (1, 2, 3):
                                 jobs.append((sc, mode, i, s, "SHORT%d:%d" % (nw, how), None))
+                            # the disk fills up during this write: it completes partly and every later write fails with ENOSPC
+                            for how in (1, 2):
+                                jobs.append((sc, mode, i, s, "FULL%d:%d" % (nw, how), None))
 
         def one(j):
             sc, mode, i, s, e, pre = j
@@ -435,6 +454,9 @@ def run_c10(prop, tier):
             if e.startswith("SHORT"):
                 r = runner.run(tag, sc, mode, shortwrite=e[5:])
                 fired = any("VERIF-SHORT" in x[2] for x in r["log"])
+            elif e.startswith("FULL"):
+                r = runner.run(tag, sc, mode, diskfull=e[4:])
+                fired = any("VERIF-DISKFULL" in x[2] for x in r["log"])
             else:
                 r = runner.run(tag, sc, mode, inject=(pre + "," if pre else "") + "err:%d:%s" % (s["n"], e))
                 fired = sum(1 for x in r["log"] if "(INJECTED)" in x[4]) == (2 if pre else 1)
@@ -482,7 +504,7 @@ def run_c10(prop, tier):
                 rc, msg = runner.emulate(r["final"])
                 if rc != 0:
                     probs.append("returned normally but ovniemu rejects the final trace: %s" % msg[-120:])
-            return ("normal", probs, seq_of(r["log"]) if (pre is None and not e.startswith("SHORT")) else None)
+            return ("normal", probs, seq_of(r["log"]) if (pre is None and not e.startswith(("SHORT", "FULL"))) else None)
         outcomes = {}
 
         def collect(jobs, results, second):
@@ -513,7 +535,7 @@ def run_c10(prop, tier):
         ctx.cov["outcomes"] = outcomes
         ctx.cov["rule"] = ("the same scenarios and modes as C09 plus OVNI_TMPDIR naming the trace directory; every runtime-phase syscall (mkdir, openat, write, read, close, newfstatat, getdents64, unlink, rmdir) "
                            "fails once with each errno of its class (EACCES/ENOSPC/EMFILE/EIO, EINTR for write; deep plan: and, when the runtime survives that, every later call fails once more), and every write() of the single-threaded scenarios completes partly once "
-                           "(1 byte, half, all but one byte; link-level interposition in the driver); oracle: abort with a diagnostic, or normal return with a complete "
+                           "(1 byte, half, all but one byte; link-level interposition in the driver) and, separately, is the write during which the disk fills up (partial, then ENOSPC on every later write); a scenario that changes its working directory before a second thread starts, with relative directories and getcwd() failing; oracle: abort with a diagnostic, or normal return with a complete "
                            "valid final trace accepted by ovniemu; in both cases no temporary file is removed while its final copy is incomplete")
         ctx.sample({"scenario": "h2", "mode": ["tmpdir", "obs-first"], "fault": "ENOSPC on the 2nd write of the relocation copy of stream.obs"})
         ctx.assumptions += ["single faults (deep plan: pairs whose first fault is survived); stdio's own write loop (relocation copy) is not interposed",
